@@ -122,7 +122,7 @@ func c02PanicWhere(trace string) string {
 }
 
 // c02RunCLI runs the real pprof binary on the input file once per command (in parallel).
-func c02RunCLI(c *Ctx, input []byte, cmds []string) []c02CLIResult {
+func c02RunCLI(c *Ctx, input []byte, cmds []string, limit time.Duration) []c02CLIResult {
 	if c.Pprof == "" {
 		return nil
 	}
@@ -144,7 +144,7 @@ func c02RunCLI(c *Ctx, input []byte, cmds []string) []c02CLIResult {
 			defer wg.Done()
 			sem <- struct{}{}
 			defer func() { <-sem }()
-			ctx, cancel := context.WithTimeout(context.Background(), 20*time.Second)
+			ctx, cancel := context.WithTimeout(context.Background(), limit)
 			defer cancel()
 			ex := exec.CommandContext(ctx, c.Pprof, "-symbolize=none", cmd, file)
 			ex.Env = append(os.Environ(), "HOME="+dir, "PPROF_TMPDIR="+dir, "PPROF_BINARY_PATH="+filepath.Join(dir, "bin"), "GOTRACEBACK=single")
